@@ -1,12 +1,1799 @@
-use minijinja::{context, Environment, Value};
-fn main() {
-    let args: Vec<String> = std::env::args().collect();
+//! C02 correspondence harness: HTML auto-escaping / safe-bit provenance.
+//!
+//! usage: c02 gen <quick|thorough>   — one line per case: `<case json>\t<engine result>`
+//!        c02 one '<case json>'       — replay one case verbosely
+//!
+//! Streams (field "s" of the case json):
+//!   F  one filter/operator call with an exact Lean model  (result value compared with the model)
+//!   C  one filter/function call checked against its safety class only
+//!   P  generated program: templates + context + flattened model steps (output compared)
+//!   W  the body of a P program wrapped in a capture construct must render identically
+//!   M  mode probes: capture inside an `autoescape` region, printed under Html
+//!   N  template-name → initial auto-escape
+//!   X  upper/lower/capitalize over all Unicode scalar values create no metacharacter
+//!
+//! Strings are written as decimal code points joined by `.` (`-` = empty); values as
+//! `S1:<cps>` (safe string) `S0:<cps>` `I:<n>` `B:<0|1>` `N` `U` `L(v;v;…)` `M(<cps>=v;…)` `F:<cps>` `O:<cps>`.
+use minijinja::value::{Value, ValueKind};
+use minijinja::Environment;
+use mjh::*;
+use serde_json::json;
+use std::collections::{BTreeMap, HashMap};
+use std::io::Write;
+use std::sync::Mutex;
+
+static PROBE: Mutex<Option<Value>> = Mutex::new(None);
+
+fn mk_env() -> Environment<'static> {
     let mut env = Environment::new();
     minijinja_contrib::add_to_environment(&mut env);
-    let src = args[2].clone();
-    env.add_template_owned("t.html".to_string(), src).unwrap();
-    env.add_template_owned("i.html".to_string(), "[{{ d }}]".to_string()).unwrap();
-    let t = env.get_template("t.html").unwrap();
-    let r = t.render(context! { d => "<α>\"β'&", s => Value::from_safe_string("<b>".into()), xs => vec!["<a>", "b&"], n => 60 });
-    println!("{:?}", r);
+    env.add_function("probe", |v: Value| -> String {
+        *PROBE.lock().unwrap() = Some(v);
+        String::new()
+    });
+    env
+}
+
+// ------------------------------------------------------------------------------- encoding
+fn enc_str(s: &str) -> String {
+    if s.is_empty() {
+        "-".into()
+    } else {
+        s.chars().map(|c| (c as u32).to_string()).collect::<Vec<_>>().join(".")
+    }
+}
+
+fn dec_str(s: &str) -> String {
+    if s == "-" || s.is_empty() {
+        String::new()
+    } else {
+        s.split('.').map(|t| char::from_u32(t.parse().unwrap()).unwrap()).collect()
+    }
+}
+
+fn enc_value(v: &Value) -> String {
+    if v.is_undefined() {
+        return "U".into();
+    }
+    if v.is_none() {
+        return "N".into();
+    }
+    match v.kind() {
+        ValueKind::String => format!("S{}:{}", if v.is_safe() { 1 } else { 0 }, enc_str(v.as_str().unwrap())),
+        ValueKind::Bool => format!("B:{}", if v.is_true() { 1 } else { 0 }),
+        ValueKind::Number => {
+            if v.is_integer() {
+                format!("I:{}", v)
+            } else {
+                format!("F:{}", enc_str(&v.to_string()))
+            }
+        }
+        ValueKind::Seq | ValueKind::Iterable => match v.try_iter() {
+            Ok(it) => format!("L({})", it.map(|x| enc_value(&x)).collect::<Vec<_>>().join(";")),
+            Err(_) => "O:-".into(),
+        },
+        ValueKind::Map => match v.try_iter() {
+            Ok(it) => {
+                let mut items: Vec<String> = it
+                    .map(|k| {
+                        let val = v.get_item(&k).unwrap_or(Value::UNDEFINED);
+                        format!("{}={}", enc_value(&k), enc_value(&val))
+                    })
+                    .collect();
+                items.sort();
+                format!("M({})", items.join(";"))
+            }
+            Err(_) => "O:-".into(),
+        },
+        _ => format!("O:{}", enc_str(&v.to_string())),
+    }
+}
+
+struct P<'a> {
+    s: &'a [u8],
+    i: usize,
+}
+
+impl<'a> P<'a> {
+    fn peek(&self) -> u8 {
+        if self.i < self.s.len() { self.s[self.i] } else { 0 }
+    }
+    fn token(&mut self) -> String {
+        let st = self.i;
+        while self.i < self.s.len() && !matches!(self.s[self.i], b';' | b')' | b'=' | b'(') {
+            self.i += 1;
+        }
+        String::from_utf8(self.s[st..self.i].to_vec()).unwrap()
+    }
+    fn value(&mut self) -> Value {
+        let t = self.token();
+        if t == "L" && self.peek() == b'(' {
+            self.i += 1;
+            let mut xs = vec![];
+            while self.peek() != b')' {
+                xs.push(self.value());
+                if self.peek() == b';' {
+                    self.i += 1;
+                }
+            }
+            self.i += 1;
+            return Value::from(xs);
+        }
+        if t == "M" && self.peek() == b'(' {
+            self.i += 1;
+            let mut m: BTreeMap<String, Value> = BTreeMap::new();
+            while self.peek() != b')' {
+                let k = self.token();
+                assert_eq!(self.peek(), b'=');
+                self.i += 1;
+                let v = self.value();
+                m.insert(dec_str(&k), v);
+                if self.peek() == b';' {
+                    self.i += 1;
+                }
+            }
+            self.i += 1;
+            return Value::from(m);
+        }
+        if let Some(r) = t.strip_prefix("S1:") {
+            return Value::from_safe_string(dec_str(r));
+        }
+        if let Some(r) = t.strip_prefix("S0:") {
+            return Value::from(dec_str(r));
+        }
+        if let Some(r) = t.strip_prefix("I:") {
+            return Value::from(r.parse::<i64>().unwrap());
+        }
+        if let Some(r) = t.strip_prefix("F:") {
+            return Value::from(dec_str(r).parse::<f64>().unwrap());
+        }
+        if let Some(r) = t.strip_prefix("B:") {
+            return Value::from(r == "1");
+        }
+        match t.as_str() {
+            "N" => Value::from(()),
+            "U" => Value::UNDEFINED,
+            _ => panic!("bad value encoding {t}"),
+        }
+    }
+}
+
+fn dec_value(s: &str) -> Value {
+    P { s: s.as_bytes(), i: 0 }.value()
+}
+
+// ------------------------------------------------------------------------------- running
+/// templates + context → rendered main template or error kind
+fn render(templates: &BTreeMap<String, String>, main: &str, ctx: &BTreeMap<String, String>) -> Result<String, String> {
+    let mut env = mk_env();
+    for (n, s) in templates {
+        env.add_template_owned(n.clone(), s.clone()).map_err(|e| format!("ERR:{}", error_kind_name(&e)))?;
+    }
+    let c: BTreeMap<String, Value> = ctx.iter().map(|(k, v)| (k.clone(), dec_value(v))).collect();
+    let t = env.get_template(main).map_err(|e| format!("ERR:{}", error_kind_name(&e)))?;
+    t.render(Value::from(c)).map_err(|e| {
+        if std::env::var("C02_VERBOSE").is_ok() {
+            eprintln!("{:#}", e);
+        }
+        let mut k = error_kind_name(&e);
+        let mut src: Option<&dyn std::error::Error> = std::error::Error::source(&e);
+        while let Some(s) = src {
+            if let Some(me) = s.downcast_ref::<minijinja::Error>() {
+                k = error_kind_name(me);
+            }
+            src = s.source();
+        }
+        format!("ERR:{}", k)
+    })
+}
+
+fn run_case(case: &serde_json::Value) -> String {
+    let s = case["s"].as_str().unwrap();
+    let templates: BTreeMap<String, String> = case["t"]
+        .as_object()
+        .map(|o| o.iter().map(|(k, v)| (k.clone(), v.as_str().unwrap().to_string())).collect())
+        .unwrap_or_default();
+    let ctx: BTreeMap<String, String> = case["ctx"]
+        .as_object()
+        .map(|o| o.iter().map(|(k, v)| (k.clone(), v.as_str().unwrap().to_string())).collect())
+        .unwrap_or_default();
+    let main = case["main"].as_str().unwrap_or("main.html").to_string();
+    *PROBE.lock().unwrap() = None;
+    let r = guarded(|| render(&templates, &main, &ctx));
+    match r {
+        Err(p) => format!("PANIC:{}", enc_str(&p)),
+        Ok(Err(e)) => e,
+        Ok(Ok(out)) => {
+            if s == "F" || s == "C" {
+                match PROBE.lock().unwrap().take() {
+                    Some(v) => format!("OK\t{}\t-", enc_value(&v)),
+                    None => "ERR:NoProbe".into(),
+                }
+            } else {
+                format!("OK\t-\t{}", enc_str(&out))
+            }
+        }
+    }
+}
+
+// ------------------------------------------------------------------------------- stream F / C
+/// metacharacters per pass: pass 0 data = `" '`, markup = `< >`; pass 1 swapped
+fn metas(pass: usize) -> ((char, char), (char, char)) {
+    if pass == 0 { (('"', '\''), ('<', '>')) } else { (('<', '>'), ('"', '\'')) }
+}
+
+fn subst(t: &str, pass: usize) -> String {
+    let ((q1, q2), (k1, k2)) = metas(pass);
+    t.chars()
+        .map(|c| match c {
+            'Q' => q1,
+            'q' => q2,
+            'K' => k1,
+            'k' => k2,
+            c => c,
+        })
+        .collect()
+}
+
+/// generic string slots: (data content, markup content); Q q = data metacharacters, K k = markup ones
+const GD: [&str; 5] = ["QαqβQ α&", "α", "qβ&Q", " Qα\nβq \n", ""];
+const GM: [&str; 5] = ["KbkαK/bk", "α", "Kik β", " KαK\n\nβk ", ""];
+
+#[derive(Clone)]
+enum Arg {
+    Slot(usize),
+    SlotC(usize, String, String), // custom content (data form, markup form)
+    Fixed(String, bool),          // fixed string, safe?
+    Int(i64),
+    Bool(bool),
+    None,
+    Undef,
+    List(Vec<Arg>),
+    Map(Vec<(String, Arg)>),
+}
+
+/// arg DSL: s<i> | c<i>{data|markup} | n{text} | k{text} | I:<n> | B:<b> | N | U | L(..;..) | M(key=..;..)
+struct AP<'a> {
+    s: &'a [u8],
+    i: usize,
+}
+impl<'a> AP<'a> {
+    fn peek(&self) -> u8 {
+        if self.i < self.s.len() { self.s[self.i] } else { 0 }
+    }
+    fn braces(&mut self) -> String {
+        assert_eq!(self.peek(), b'{');
+        self.i += 1;
+        let st = self.i;
+        while self.s[self.i] != b'}' {
+            self.i += 1;
+        }
+        let r = String::from_utf8(self.s[st..self.i].to_vec()).unwrap();
+        self.i += 1;
+        r
+    }
+    fn ident(&mut self) -> String {
+        let st = self.i;
+        while self.i < self.s.len() && !matches!(self.s[self.i], b';' | b')' | b'=' | b'(' | b'{') {
+            self.i += 1;
+        }
+        String::from_utf8(self.s[st..self.i].to_vec()).unwrap()
+    }
+    fn arg(&mut self) -> Arg {
+        let t = self.ident();
+        if t == "L" {
+            self.i += 1;
+            let mut xs = vec![];
+            while self.peek() != b')' {
+                xs.push(self.arg());
+                if self.peek() == b';' {
+                    self.i += 1;
+                }
+            }
+            self.i += 1;
+            return Arg::List(xs);
+        }
+        if t == "M" {
+            self.i += 1;
+            let mut xs = vec![];
+            while self.peek() != b')' {
+                let k = self.ident();
+                self.i += 1;
+                xs.push((k, self.arg()));
+                if self.peek() == b';' {
+                    self.i += 1;
+                }
+            }
+            self.i += 1;
+            return Arg::Map(xs);
+        }
+        if t == "n" {
+            return Arg::Fixed(self.braces(), false);
+        }
+        if t == "k" {
+            return Arg::Fixed(self.braces(), true);
+        }
+        if let Some(r) = t.strip_prefix('c') {
+            let b = self.braces();
+            let (d, m) = b.split_once('|').unwrap();
+            return Arg::SlotC(r.parse().unwrap(), d.to_string(), m.to_string());
+        }
+        if let Some(r) = t.strip_prefix('s') {
+            return Arg::Slot(r.parse().unwrap());
+        }
+        if let Some(r) = t.strip_prefix("I:") {
+            return Arg::Int(r.parse().unwrap());
+        }
+        if let Some(r) = t.strip_prefix("B:") {
+            return Arg::Bool(r == "1");
+        }
+        match t.as_str() {
+            "N" => Arg::None,
+            "U" => Arg::Undef,
+            _ => panic!("bad arg dsl {t}"),
+        }
+    }
+}
+fn parse_arg(s: &str) -> Arg {
+    AP { s: s.as_bytes(), i: 0 }.arg()
+}
+
+fn slots_of(a: &Arg, out: &mut Vec<usize>) {
+    match a {
+        Arg::Slot(i) | Arg::SlotC(i, _, _) => {
+            if !out.contains(i) {
+                out.push(*i)
+            }
+        }
+        Arg::List(xs) => xs.iter().for_each(|x| slots_of(x, out)),
+        Arg::Map(xs) => xs.iter().for_each(|(_, x)| slots_of(x, out)),
+        _ => {}
+    }
+}
+
+/// encoded value of an arg under a safety assignment (bit i of `mask` = slot i is Safe markup)
+fn arg_enc(a: &Arg, mask: u32, pass: usize, variant: usize) -> String {
+    match a {
+        Arg::Slot(i) => {
+            let safe = mask >> i & 1 == 1;
+            let idx = (i + variant) % 5;
+            let t = subst(if safe { GM[idx] } else { GD[idx] }, pass);
+            format!("S{}:{}", safe as u8, enc_str(&t))
+        }
+        Arg::SlotC(i, d, m) => {
+            let safe = mask >> i & 1 == 1;
+            format!("S{}:{}", safe as u8, enc_str(&subst(if safe { m } else { d }, pass)))
+        }
+        Arg::Fixed(t, safe) => format!("S{}:{}", *safe as u8, enc_str(&subst(t, pass))),
+        Arg::Int(n) => format!("I:{n}"),
+        Arg::Bool(b) => format!("B:{}", *b as u8),
+        Arg::None => "N".into(),
+        Arg::Undef => "U".into(),
+        Arg::List(xs) => format!("L({})", xs.iter().map(|x| arg_enc(x, mask, pass, variant)).collect::<Vec<_>>().join(";")),
+        Arg::Map(xs) => format!(
+            "M({})",
+            xs.iter().map(|(k, x)| format!("{}={}", enc_str(k), arg_enc(x, mask, pass, variant))).collect::<Vec<_>>().join(";")
+        ),
+    }
+}
+
+/// model steps that build an encoded value; returns the register
+fn model_build(enc: &str, steps: &mut Vec<String>, nreg: &mut usize) -> Option<usize> {
+    fn go(p: &mut P, steps: &mut Vec<String>, nreg: &mut usize) -> Option<usize> {
+        let t = p.token();
+        if t == "L" && p.peek() == b'(' {
+            p.i += 1;
+            let mut rs = vec![];
+            while p.peek() != b')' {
+                rs.push(go(p, steps, nreg)?);
+                if p.peek() == b';' {
+                    p.i += 1;
+                }
+            }
+            p.i += 1;
+            steps.push(format!("L {}", if rs.is_empty() { "-".into() } else { rs.iter().map(|r| r.to_string()).collect::<Vec<_>>().join(",") }));
+            *nreg += 1;
+            return Some(*nreg - 1);
+        }
+        if t == "M" {
+            return None;
+        }
+        if let Some(r) = t.strip_prefix("S1:") {
+            steps.push(format!("D {r}"));
+            steps.push(format!("A safe h {} -", *nreg));
+            *nreg += 2;
+            return Some(*nreg - 1);
+        }
+        let st = if let Some(r) = t.strip_prefix("S0:") {
+            format!("D {r}")
+        } else if let Some(r) = t.strip_prefix("I:") {
+            format!("I {r}")
+        } else if let Some(r) = t.strip_prefix("B:") {
+            format!("B {r}")
+        } else if t == "N" {
+            "N".into()
+        } else if t == "U" {
+            "U".into()
+        } else {
+            return None;
+        };
+        steps.push(st);
+        *nreg += 1;
+        Some(*nreg - 1)
+    }
+    go(&mut P { s: enc.as_bytes(), i: 0 }, steps, nreg)
+}
+
+struct FDef {
+    name: &'static str,
+    expr: &'static str,
+    args: &'static [&'static str],
+    model: Option<(&'static str, &'static [u64])>,
+    tmpl: Option<&'static str>,
+}
+
+const fn f(name: &'static str, expr: &'static str, args: &'static [&'static str], model: &'static str, ps: &'static [u64]) -> FDef {
+    FDef { name, expr, args, model: Some((model, ps)), tmpl: None }
+}
+const fn c(name: &'static str, expr: &'static str, args: &'static [&'static str]) -> FDef {
+    FDef { name, expr, args, model: None, tmpl: None }
+}
+const fn ct(name: &'static str, tmpl: &'static str, args: &'static [&'static str]) -> FDef {
+    FDef { name, expr: "", args, model: None, tmpl: Some(tmpl) }
+}
+
+const REC: &str = "L(M(k=s0;v=s1);M(k=s2;v=s3))";
+
+static FDEFS: &[FDef] = &[
+    f("escape", "a0|escape", &["s0"], "escape", &[]),
+    f("e", "a0|e", &["L(s0;s1)"], "escape", &[]),
+    f("e", "a0|e", &["I:5"], "escape", &[]),
+    f("e", "a0|e|e", &["s0"], "escape", &[]),
+    f("upper", "a0|upper", &["s0"], "upper", &[]),
+    f("lower", "a0|lower", &["c0{QΑΒq Γ|KBkΑΒ}"], "lower", &[]),
+    f("capitalize", "a0|capitalize", &["c0{αΒq Γ|αKBkΑΒ}"], "capitalize", &[]),
+    f("capitalize", "a0|capitalize", &["s0"], "capitalize", &[]),
+    f("title", "a0|title", &["c0{αβ γΔq-εQζ|αβ KbΒk}"], "title", &[]),
+    f("trim", "a0|trim", &["s3"], "trim", &[]),
+    f("trim", "a0|trim(a1)", &["s0", "c1{Qα|Kb}"], "trim", &[]),
+    f("reverse", "a0|reverse", &["s0"], "reverse", &[]),
+    f("reverse", "a0|reverse", &["L(s0;s1;s2)"], "reverse", &[]),
+    f("indent", "a0|indent(2)", &["s3"], "indent", &[2, 0, 0]),
+    f("indent", "a0|indent(3, true, true)", &["s3"], "indent", &[3, 1, 1]),
+    f("indent", "a0|indent(1, false, true)", &["c0{Qα\n\nβq\n|Kb\n\nβk\n}"], "indent", &[1, 0, 1]),
+    f("indent", "a0|indent", &["c0{α\nQβ|α\nKβ}"], "indent", &[4, 0, 0]),
+    f("replace", "a0|replace(a1, a2)", &["s0", "s1", "s2"], "replace", &[]),
+    f("replace", "a0|replace(a1, a2)", &["s0", "c1{Q|K}", "s2"], "replace", &[]),
+    f("replace", "a0|replace(a1, a2)", &["s0", "c1{&|&}", "c2{Qx|Ky}"], "replace", &[]),
+    f("replace", "a0|replace(a1, a2)", &["c0{QαQ|&lt;α}", "c1{&lt;|&lt;}", "c2{Q|K}"], "replace", &[]),
+    f("replace", "a0|replace(a1, a2)", &["c0{αQ|αK}", "n{}", "c2{q|k}"], "replace", &[]),
+    f("join", "a0|join(a1)", &["L(s0;s1;s2)", "c3{Q-q|K-k}"], "join", &[]),
+    f("join", "a0|join", &["L(s0;s1)"], "join", &[]),
+    f("join", "a0|join(a1)", &["L(s0;I:7;L(s1;s2))", "s1"], "join", &[]),
+    f("join", "a0|join(a1)", &["s0", "c1{q|k}"], "join", &[]),
+    f("join", "a0|join(a1)", &["L()", "s1"], "join", &[]),
+    f("format", "a0|format(a1, a2)", &["c0{%sQ|%5sq|%sK|%5sk}", "s1", "s2"], "format", &[]),
+    f("format", "a0|format(a1, a2)", &["c0{[%-9s]Q%.2s|[%-9s]K%.2s}", "s0", "s2"], "format", &[]),
+    f("format", "a0|format(a1, a2)", &["c0{%d%%q%s|%d%%k%s}", "I:42", "s0"], "format", &[]),
+    f("format", "a0|format(a1)", &["c0{Q%s|K%s}", "L(s1;s2)"], "format", &[]),
+    f("format", "a0|format(a1)", &["c0{Q%c|K%c}", "I:60"], "format", &[]),
+    f("truncate", "a0|truncate(length=7, killwords=true, end=a1, leeway=0)", &["s0", "c1{Q…|K…}"], "truncate", &[7, 0, 1]),
+    f("truncate", "a0|truncate(length=6, killwords=false, end=a1, leeway=0)", &["s0", "c1{..q|..k}"], "truncate", &[6, 0, 0]),
+    f("truncate", "a0|truncate(length=6, end=a1)", &["s0", "n{...}"], "truncate", &[6, 5, 0]),
+    f("truncate", "a0|truncate(length=4, killwords=true, end=a1, leeway=1)", &["s0", "n{...}"], "truncate", &[4, 1, 1]),
+    f("split", "a0|split(a1)", &["s0", "n{α}"], "split", &[]),
+    f("split", "a0|split(a1)", &["s0", "c1{Q|K}"], "split", &[]),
+    f("split", "a0|split", &["s3"], "split", &[]),
+    f("split", "a0|split(a1, 1)", &["c0{QαqαQα|KαkαKα}", "n{α}"], "split", &[1]),
+    f("lines", "a0|lines", &["s3"], "lines", &[]),
+    f("lines", "a0|lines", &["c0{Qa\n\nqb\n|Ka\n\nkb\n}"], "lines", &[]),
+    f("first", "a0|first", &["s0"], "first", &[]),
+    f("first", "a0|first", &["L(s0;s1)"], "first", &[]),
+    f("last", "a0|last", &["c0{αQ|αK}"], "last", &[]),
+    f("last", "a0|last", &["L(s0;s1)"], "last", &[]),
+    f("default", "a0|default(a1)", &["s0", "s1"], "default", &[0]),
+    f("default", "a0|default(a1)", &["U", "s1"], "default", &[0]),
+    f("d", "a0|d(a1, true)", &["n{}", "s1"], "default", &[1]),
+    f("string", "a0|string", &["s0"], "string", &[]),
+    f("string", "a0|string", &["L(s0;s1)"], "string", &[]),
+    f("string", "a0|string", &["I:5"], "string", &[]),
+    f("length", "a0|length", &["s0"], "length", &[]),
+    f("count", "a0|count", &["L(s0;s1)"], "length", &[]),
+    f("list", "a0|list", &["s1"], "list", &[]),
+    f("list", "a0|list", &["L(s0;s1)"], "list", &[]),
+    f("map", "a0|map('upper')", &["L(s0;s1)"], "map.upper", &[]),
+    f("map", "a0|map('replace', a1, a2)", &["L(s0;s1)", "n{α}", "s2"], "map.replace", &[]),
+    f("map", "a0|map('e')", &["L(s0;s1;I:3)"], "map.escape", &[]),
+    f("map", "a0|map('trim')", &["L(s3;s0)"], "map.trim", &[]),
+    f("op~", "a0 ~ a1", &["s0", "s1"], "concat", &[]),
+    f("op+", "a0 + a1", &["s0", "s1"], "add", &[]),
+    f("op*", "a0 * 3", &["s1"], "repeat", &[3]),
+    f("op[:]", "a0[1:3]", &["s0"], "slice", &[1, 3]),
+    f("op[:]", "a0[1:3]", &["L(s0;s1;s2)"], "slice", &[1, 3]),
+    f("op[]", "a0[1]", &["s0"], "elem", &[1]),
+    f("op[]", "a0[1]", &["L(s0;s1;s2)"], "elem", &[1]),
+    f("safe", "a0|safe", &["s0"], "safe", &[]),
+    f("tojson", "a0|tojson", &["s0"], "tojson", &[]),
+    // ---- class only
+    c("attr", "a0|attr('k')", &["M(k=s0;v=s1)"]),
+    c("batch", "a0|batch(2, a1)", &["L(s0;s1;s2)", "s3"]),
+    c("slice", "a0|slice(2, a1)", &["L(s0;s1;s2)", "s3"]),
+    c("sort", "a0|sort", &["L(s0;s1;s2)"]),
+    c("sort", "a0|sort(reverse=true, case_sensitive=true)", &["L(s0;s1;s2)"]),
+    c("sort", "a0|sort(attribute='k')", &[REC]),
+    c("unique", "a0|unique", &["L(s0;s1;s0;s2)"]),
+    c("unique", "a0|unique(attribute='k')", &[REC]),
+    c("min", "a0|min", &["L(s0;s1;s2)"]),
+    c("max", "a0|max", &["L(s0;s1;s2)"]),
+    c("select", "a0|select", &["L(s0;s4;s1)"]),
+    c("select", "a0|select('string')", &["L(s0;I:1;s1)"]),
+    c("reject", "a0|reject('undefined')", &["L(s0;U;s1)"]),
+    c("selectattr", "a0|selectattr('k')", &[REC]),
+    c("rejectattr", "a0|rejectattr('k', 'none')", &[REC]),
+    c("groupby", "a0|groupby('k')", &[REC]),
+    c("groupby", "a0|groupby('z', default=a1)", &[REC, "s4"]),
+    c("dictsort", "a0|dictsort", &["M(x=s0;y=s1)"]),
+    c("dictsort", "a0|dictsort(by='value')", &["M(x=s0;y=s1)"]),
+    c("items", "a0|items", &["M(x=s0;y=s1)"]),
+    c("chain", "a0|chain(a1)", &["L(s0;s1)", "L(s2)"]),
+    c("chain", "a0|chain(a1)", &["M(x=s0)", "M(y=s1)"]),
+    c("zip", "a0|zip(a1)", &["L(s0;s1)", "L(s2;s3)"]),
+    c("pluralize", "a0|pluralize(a1, a2)", &["I:1", "s0", "s1"]),
+    c("pluralize", "a0|pluralize(a1, a2)", &["I:2", "s0", "s1"]),
+    c("map", "a0|map(attribute='k')", &[REC]),
+    c("map", "a0|map(attribute='z', default=a1)", &[REC, "s4"]),
+    c("cycler", "cycler([a0, a1]).next()", &["s0", "s1"]),
+    ct("joiner", "{% set j = joiner(a0) %}{{ probe([j(), j(), j()]) }}", &["s0"]),
+    c("dict", "dict(x=a0, y=a1)", &["s0", "s1"]),
+    c("namespace", "namespace(x=a0).x", &["s0"]),
+    c("range", "range(3)", &[]),
+    ct("loop.cycle", "{% for i in [1, 2] %}{{ probe(loop.cycle(a0, a1)) }}{% endfor %}", &["s0", "s1"]),
+    c("abs", "a0|abs", &["I:-3"]),
+    c("bool", "a0|bool", &["s0"]),
+    c("float", "a0|float", &["c0{1.5|2.5}"]),
+    c("int", "a0|int", &["c0{42|43}"]),
+    c("round", "a0|round", &["I:3"]),
+    c("sum", "a0|sum", &["L(I:1;I:2)"]),
+    c("pprint", "a0|pprint", &["s0"]),
+    c("pprint", "a0|pprint", &["L(s0;s1)"]),
+    c("urlencode", "a0|urlencode", &["s0"]),
+    c("urlencode", "a0|urlencode", &["M(x=s0;y=s1)"]),
+    c("striptags", "a0|striptags", &["c0{Kbk&lt;αK/bk|<b>&lt;α</b>}"]),
+    c("striptags", "a0|striptags", &["s0"]),
+    c("filesizeformat", "a0|filesizeformat", &["I:1000000"]),
+    c("debug", "debug()", &["s0"]),
+];
+
+fn gen_fc(out: &mut impl Write, tier: &str) {
+    let variants = if tier == "thorough" { 5 } else { 3 };
+    for def in FDEFS {
+        let args: Vec<Arg> = def.args.iter().map(|a| parse_arg(a)).collect();
+        let mut slots = vec![];
+        args.iter().for_each(|a| slots_of(a, &mut slots));
+        let nslots = slots.iter().max().map(|m| m + 1).unwrap_or(0);
+        fn has_generic(a: &Arg) -> bool { match a { Arg::Slot(_) => true, Arg::List(xs) => xs.iter().any(has_generic), Arg::Map(xs) => xs.iter().any(|(_, x)| has_generic(x)), _ => false } }
+        let uses_generic = args.iter().any(has_generic);
+        let nvar = if uses_generic { variants } else { 1 };
+        for pass in 0..2 {
+            for variant in 0..nvar {
+                for mask in 0..(1u32 << nslots) {
+                    // skip masks touching unused slot numbers
+                    if (0..nslots).any(|i| mask >> i & 1 == 1 && !slots.contains(&i)) {
+                        continue;
+                    }
+                    let encs: Vec<String> = args.iter().map(|a| arg_enc(a, mask, pass, variant)).collect();
+                    let mut ctx = serde_json::Map::new();
+                    for (i, e) in encs.iter().enumerate() {
+                        ctx.insert(format!("a{i}"), json!(e));
+                    }
+                    let src = match def.tmpl {
+                        Some(t) => t.to_string(),
+                        None => format!("{{{{ probe({}) }}}}", def.expr),
+                    };
+                    let model = def.model.and_then(|(name, ps)| {
+                        let mut steps = vec![];
+                        let mut nreg = 0;
+                        let mut regs = vec![];
+                        for e in &encs {
+                            regs.push(model_build(e, &mut steps, &mut nreg)?);
+                        }
+                        let mut name = name.to_string();
+                        if def.expr.ends_with("|e|e") {
+                            steps.push(format!("A escape h {} -", regs[0]));
+                            regs[0] = nreg;
+                            name = "escape".into();
+                        }
+                        steps.push(format!(
+                            "A {} h {} {}",
+                            name,
+                            regs.iter().map(|r| r.to_string()).collect::<Vec<_>>().join(","),
+                            if ps.is_empty() { "-".into() } else { ps.iter().map(|p| p.to_string()).collect::<Vec<_>>().join(",") }
+                        ));
+                        Some(steps.join("|"))
+                    });
+                    let ((q1, q2), _) = metas(pass);
+                    let pattern: String = (0..nslots).map(|i| if !slots.contains(&i) { '-' } else if mask >> i & 1 == 1 { 'S' } else { 'N' }).collect();
+                    let case = json!({
+                        "s": if def.model.is_some() { "F" } else { "C" },
+                        "name": def.name, "expr": if def.tmpl.is_some() { def.tmpl.unwrap() } else { def.expr },
+                        "pattern": pattern, "dm": format!("{q1}{q2}"),
+                        "t": {"main.html": src}, "ctx": ctx, "args": encs, "model": model,
+                    });
+                    let res = run_case(&case);
+                    writeln!(out, "{}\t{}", case, res).unwrap();
+                }
+            }
+        }
+    }
+}
+
+// ------------------------------------------------------------------------------- stream X
+fn gen_x(out: &mut impl Write) {
+    let env = mk_env();
+    let metas = ['<', '>', '"', '\''];
+    for (name, prefix) in [("upper", ""), ("lower", ""), ("capitalize", ""), ("capitalize", "a")] {
+        let src = format!("{{{{ probe(a0|{name}) }}}}");
+        let mut bad: Vec<u32> = vec![];
+        let mut n = 0u64;
+        let mut unsafe_out = 0u64;
+        let eval = |s: String| -> (String, bool) {
+            *PROBE.lock().unwrap() = None;
+            let mut e = env.clone();
+            e.add_template_owned("x.html".to_string(), src.clone()).unwrap();
+            let mut ctx = BTreeMap::new();
+            ctx.insert("a0", Value::from_safe_string(s));
+            e.get_template("x.html").unwrap().render(Value::from(ctx)).unwrap();
+            let v = PROBE.lock().unwrap().take().unwrap();
+            (v.as_str().unwrap().to_string(), v.is_safe())
+        };
+        let all: Vec<char> = (0u32..0x110000).filter_map(char::from_u32).filter(|c| !metas.contains(c)).collect();
+        for chunk in all.chunks(4096) {
+            n += chunk.len() as u64;
+            let mut s = String::from(prefix);
+            for c in chunk {
+                s.push(*c);
+                s.push(' ');
+            }
+            let (o, safe) = eval(s);
+            if !safe {
+                unsafe_out += 1;
+            }
+            if o.chars().any(|c| metas.contains(&c)) {
+                for c in chunk {
+                    let (o1, _) = eval(format!("{prefix}{c}"));
+                    if o1.chars().any(|c| metas.contains(&c)) {
+                        bad.push(*c as u32);
+                    }
+                }
+            }
+        }
+        let case = json!({"s": "X", "name": name, "prefix": prefix, "chars": n});
+        let res = if bad.is_empty() && unsafe_out == 0 {
+            "OK\t-\t-".to_string()
+        } else {
+            format!("FAIL\t{}\t{}", bad.iter().take(20).map(|b| b.to_string()).collect::<Vec<_>>().join(","), unsafe_out)
+        };
+        writeln!(out, "{}\t{}", case, res).unwrap();
+    }
+}
+
+// ------------------------------------------------------------------------------- stream M / N
+fn emit_case(out: &mut impl Write, case: serde_json::Value) {
+    let res = run_case(&case);
+    writeln!(out, "{}\t{}", case, res).unwrap();
+}
+
+fn gen_modes(out: &mut impl Write) {
+    let datas = ["<α>\"β'&", "'", "a<b"];
+    for d in datas {
+        for (region, m) in [("false", "n"), ("\"none\"", "n"), ("\"json\"", "j"), ("true", "h"), ("\"html\"", "h")] {
+            let dreg = format!("D {}", enc_str(d));
+            let kinds: Vec<(&str, &str, BTreeMap<String, String>, String)> = vec![
+                (
+                    "setblock", "end_capture",
+                    [("main.html".to_string(), format!("{{% autoescape {region} %}}{{% set x %}}{{{{ d }}}}{{% endset %}}{{% endautoescape %}}{{{{ x }}}}"))].into_iter().collect(),
+                    format!("{dreg}|BC|E {m} 0|EC {m}|E h 1"),
+                ),
+                (
+                    "macro", "macro_call",
+                    [("main.html".to_string(), format!("{{% macro mm(a) %}}{{{{ a }}}}{{% endmacro %}}{{% autoescape {region} %}}{{% set x = mm(d) %}}{{% endautoescape %}}{{{{ x }}}}"))].into_iter().collect(),
+                    format!("{dreg}|BC|E {m} 0|MR {m}|E h 1"),
+                ),
+                (
+                    "callblock", "macro_call",
+                    [("main.html".to_string(), format!("{{% macro mm() %}}{{{{ caller() }}}}{{% endmacro %}}{{% autoescape {region} %}}{{% set x %}}{{% call mm() %}}{{{{ d }}}}{{% endcall %}}{{% endset %}}{{% endautoescape %}}{{{{ x }}}}"))].into_iter().collect(),
+                    format!("{dreg}|BC|BC|BC|E {m} 0|MR {m}|E {m} 1|MR {m}|E {m} 2|EC {m}|E h 3"),
+                ),
+                (
+                    "filterblock", "end_capture",
+                    [("main.html".to_string(), format!("{{% autoescape {region} %}}{{% set x %}}{{% filter upper %}}{{{{ d }}}}{{% endfilter %}}{{% endset %}}{{% endautoescape %}}{{{{ x }}}}"))].into_iter().collect(),
+                    format!("{dreg}|BC|BC|E {m} 0|EC {m}|A upper {m} 1 -|E {m} 2|EC {m}|E h 3"),
+                ),
+                (
+                    "super", "end_capture",
+                    [
+                        ("base.html".to_string(), "{% block b %}{{ d }}{% endblock %}".to_string()),
+                        ("main.html".to_string(), format!("{{% extends \"base.html\" %}}{{% block b %}}{{% autoescape {region} %}}{{% set x = super() %}}{{% endautoescape %}}{{{{ x }}}}{{% endblock %}}")),
+                    ].into_iter().collect(),
+                    format!("{dreg}|BC|E {m} 0|EC {m}|E h 1"),
+                ),
+                (
+                    "looprec", "end_capture",
+                    [("main.html".to_string(), format!("{{% set ns = namespace(v=\"\") %}}{{% autoescape {region} %}}{{% for n in [[d]] recursive %}}{{% if n is string %}}{{{{ n }}}}{{% else %}}{{% set ns.v = loop(n) %}}{{% endif %}}{{% endfor %}}{{% endautoescape %}}{{{{ ns.v }}}}"))].into_iter().collect(),
+                    format!("{dreg}|BC|E {m} 0|EC {m}|E h 1"),
+                ),
+            ];
+            for (kind, site, t, model) in kinds {
+                let case = json!({"s": "M", "kind": kind, "site": site, "region": region, "mode": m,
+                    "t": t, "ctx": {"d": format!("S0:{}", enc_str(d))}, "model": model});
+                emit_case(out, case);
+            }
+        }
+    }
+}
+
+fn gen_names(out: &mut impl Write) {
+    let d = "<α>\"β'&";
+    for (name, m) in [
+        ("a.html", "h"), ("a.htm", "h"), ("a.xml", "h"), ("a.html.j2", "h"), ("dir/a.xml.jinja", "h"),
+        ("a.htm.jinja2", "h"), ("a.b.html", "h"), ("a.txt", "n"), ("a.html.txt", "n"), ("html", "h"),
+        ("a.json", "j"), ("a.yaml.j2", "j"), ("a.HTML", "n"), ("a.xhtml", "n"),
+    ] {
+        let mut t = BTreeMap::new();
+        t.insert(name.to_string(), "{% set x %}{{ d }}{% endset %}{{ x }}{{ d|e }}".to_string());
+        let case = json!({"s": "N", "name": name, "mode": m, "main": name, "t": t,
+            "ctx": {"d": format!("S0:{}", enc_str(d))},
+            "model": format!("D {}|BC|E {m} 0|EC {m}|E {m} 1|A escape {m} 0 -|E {m} 2", enc_str(d))});
+        emit_case(out, case);
+    }
+}
+
+// ------------------------------------------------------------------------------- stream P / W
+#[derive(Clone, Debug)]
+enum E {
+    Var(String),
+    Lit(String),
+    Bin(&'static str, Box<E>, Box<E>),
+    Mul(Box<E>, u32),
+    /// model name, template syntax after `|` with {1} {2} for extra args, args[0] = subject, numeric params
+    Filt(String, String, Vec<E>, Vec<u64>),
+    Index(Box<E>, usize),
+    Slice(Box<E>, usize, usize),
+    List(Vec<E>),
+    Call(String, Vec<E>),
+    Caller,
+    Super,
+    LoopIndex,
+    Cond(String, Box<E>, Box<E>),
+}
+
+#[derive(Clone, Debug)]
+enum S {
+    Text(String),
+    Emit(E),
+    Set(String, E),
+    SetBlock(String, Vec<S>, Option<(String, String, Vec<u64>)>),
+    FilterBlock(String, String, Vec<u64>, Vec<S>),
+    For(String, E, Vec<S>, Vec<S>),
+    If(String, Vec<S>, Vec<S>),
+    IfFirst(Vec<S>, Vec<S>),
+    With(String, E, Vec<S>),
+    CallBlock(String, Vec<E>, Vec<S>),
+    Include(String),
+    Block(String, Vec<S>),
+    Auto(&'static str, Vec<S>),
+    Tree(String),
+}
+
+#[derive(Clone, Debug)]
+struct MacroDef {
+    name: String,
+    params: Vec<String>,
+    body: Vec<S>,
+    uses_caller: bool,
+}
+
+#[derive(Clone, Debug, Default)]
+struct Tmpl {
+    name: String,
+    extends: Option<String>,
+    imports: Vec<(String, Vec<String>)>,
+    macros: Vec<MacroDef>,
+    body: Vec<S>,
+}
+
+fn lit_src(s: &str) -> String {
+    let mut r = String::from("\"");
+    for c in s.chars() {
+        match c {
+            '"' => r.push_str("\\\""),
+            '\\' => r.push_str("\\\\"),
+            '\n' => r.push_str("\\n"),
+            c => r.push(c),
+        }
+    }
+    r.push('"');
+    r
+}
+
+fn expr_src(e: &E) -> String {
+    match e {
+        E::Var(n) => n.clone(),
+        E::Lit(s) => lit_src(s),
+        E::Bin(op, a, b) => format!("({} {} {})", expr_src(a), op, expr_src(b)),
+        E::Mul(a, n) => format!("({} * {})", expr_src(a), n),
+        E::Filt(_, syn, args, _) => {
+            let mut s = syn.clone();
+            for (i, a) in args.iter().enumerate().skip(1) {
+                s = s.replace(&format!("{{{i}}}"), &expr_src(a));
+            }
+            format!("({})|{}", expr_src(&args[0]), s)
+        }
+        E::Index(a, k) => format!("({})[{}]", expr_src(a), k),
+        E::Slice(a, x, y) => format!("({})[{}:{}]", expr_src(a), x, y),
+        E::List(xs) => format!("[{}]", xs.iter().map(expr_src).collect::<Vec<_>>().join(", ")),
+        E::Call(m, args) => format!("{}({})", m, args.iter().map(expr_src).collect::<Vec<_>>().join(", ")),
+        E::Caller => "caller()".into(),
+        E::Super => "super()".into(),
+        E::LoopIndex => "loop.index".into(),
+        E::Cond(f, a, b) => format!("({} if {} else {})", expr_src(a), f, expr_src(b)),
+    }
+}
+
+fn stmts_src(ss: &[S]) -> String {
+    ss.iter().map(stmt_src).collect()
+}
+
+fn stmt_src(s: &S) -> String {
+    match s {
+        S::Text(t) => t.clone(),
+        S::Emit(e) => format!("{{{{ {} }}}}", expr_src(e)),
+        S::Set(n, e) => format!("{{% set {} = {} %}}", n, expr_src(e)),
+        S::SetBlock(n, b, f) => match f {
+            Some((_, syn, _)) => format!("{{% set {} | {} %}}{}{{% endset %}}", n, syn, stmts_src(b)),
+            None => format!("{{% set {} %}}{}{{% endset %}}", n, stmts_src(b)),
+        },
+        S::FilterBlock(_, syn, _, b) => format!("{{% filter {} %}}{}{{% endfilter %}}", syn, stmts_src(b)),
+        S::For(v, it, b, el) => {
+            if el.is_empty() {
+                format!("{{% for {} in {} %}}{}{{% endfor %}}", v, expr_src(it), stmts_src(b))
+            } else {
+                format!("{{% for {} in {} %}}{}{{% else %}}{}{{% endfor %}}", v, expr_src(it), stmts_src(b), stmts_src(el))
+            }
+        }
+        S::If(f, a, b) => format!("{{% if {} %}}{}{{% else %}}{}{{% endif %}}", f, stmts_src(a), stmts_src(b)),
+        S::IfFirst(a, b) => format!("{{% if loop.first %}}{}{{% else %}}{}{{% endif %}}", stmts_src(a), stmts_src(b)),
+        S::With(n, e, b) => format!("{{% with {} = {} %}}{}{{% endwith %}}", n, expr_src(e), stmts_src(b)),
+        S::CallBlock(m, args, b) => format!(
+            "{{% call {}({}) %}}{}{{% endcall %}}",
+            m,
+            args.iter().map(expr_src).collect::<Vec<_>>().join(", "),
+            stmts_src(b)
+        ),
+        S::Include(n) => format!("{{% include \"{}\" %}}", n),
+        S::Block(n, b) => format!("{{% block {} %}}{}{{% endblock %}}", n, stmts_src(b)),
+        S::Auto(a, b) => format!("{{% autoescape {} %}}{}{{% endautoescape %}}", a, stmts_src(b)),
+        S::Tree(v) => format!(
+            "{{% for n in {} recursive %}}{{{{ n.name }}}}{{% if n.children %}}[{{{{ loop(n.children) }}}}]{{% endif %}}{{% endfor %}}",
+            v
+        ),
+    }
+}
+
+fn header_src(t: &Tmpl) -> String {
+    let mut s = String::new();
+    for (from, names) in &t.imports {
+        if !names.is_empty() {
+            s.push_str(&format!("{{% from \"{}\" import {} %}}", from, names.join(", ")));
+        }
+    }
+    for m in &t.macros {
+        s.push_str(&format!("{{% macro {}({}) %}}{}{{% endmacro %}}", m.name, m.params.join(", "), stmts_src(&m.body)));
+    }
+    s
+}
+
+fn tmpl_src(t: &Tmpl) -> String {
+    let mut s = String::new();
+    if let Some(p) = &t.extends {
+        s.push_str(&format!("{{% extends \"{}\" %}}", p));
+    }
+    s.push_str(&header_src(t));
+    s.push_str(&stmts_src(&t.body));
+    s
+}
+
+#[derive(Clone, Debug)]
+struct Tree {
+    name: String,
+    children: Vec<Tree>,
+}
+
+struct Program {
+    templates: Vec<Tmpl>,
+    main: String,
+    strs: Vec<(String, String)>,
+    lists: Vec<(String, Vec<String>)>,
+    flags: Vec<(String, bool)>,
+    tree: Vec<Tree>,
+}
+
+// ---- flattening to model steps
+#[derive(Clone, Debug)]
+enum Shape {
+    Str(Option<usize>),
+    List(Option<usize>),
+    Other,
+}
+
+struct Interp<'a> {
+    prog: &'a Program,
+    steps: Vec<String>,
+    nreg: usize,
+    scopes: Vec<HashMap<String, (usize, Shape)>>,
+    macros: HashMap<String, MacroDef>,
+    callers: Vec<Option<(Vec<S>, Vec<HashMap<String, (usize, Shape)>>)>>,
+    loops: Vec<usize>,
+    /// block name → bodies from most derived to base
+    chains: HashMap<String, Vec<Vec<S>>>,
+    supers: Vec<(String, usize)>,
+}
+
+impl<'a> Interp<'a> {
+    fn push_step(&mut self, s: String) -> usize {
+        self.steps.push(s);
+        self.nreg += 1;
+        self.nreg - 1
+    }
+    fn lookup(&self, n: &str) -> (usize, Shape) {
+        for sc in self.scopes.iter().rev() {
+            if let Some(v) = sc.get(n) {
+                return v.clone();
+            }
+        }
+        panic!("generator bug: variable {n} not in scope");
+    }
+    fn bind(&mut self, n: &str, r: usize, sh: Shape) {
+        self.scopes.last_mut().unwrap().insert(n.to_string(), (r, sh));
+    }
+    fn flag(&self, n: &str) -> bool {
+        self.prog.flags.iter().find(|(k, _)| k == n).unwrap().1
+    }
+    fn regs(rs: &[usize]) -> String {
+        if rs.is_empty() { "-".into() } else { rs.iter().map(|r| r.to_string()).collect::<Vec<_>>().join(",") }
+    }
+    fn call_macro(&mut self, name: &str, args: &[E], caller: Option<(Vec<S>, Vec<HashMap<String, (usize, Shape)>>)>) -> usize {
+        let def = self.macros.get(name).unwrap_or_else(|| panic!("generator bug: macro {name}")).clone();
+        let mut frame = HashMap::new();
+        for (i, p) in def.params.iter().enumerate() {
+            let (r, sh) = match args.get(i) {
+                Some(a) => self.expr(a),
+                None => (self.push_step("U".into()), Shape::Other),
+            };
+            frame.insert(p.clone(), (r, sh));
+        }
+        self.steps.push("BC".into());
+        let saved = std::mem::replace(&mut self.scopes, vec![]);
+        self.scopes.push(saved[0].clone());
+        self.scopes.push(frame);
+        self.callers.push(caller);
+        let saved_loops = std::mem::take(&mut self.loops);
+        self.block(&def.body);
+        self.loops = saved_loops;
+        self.callers.pop();
+        self.scopes = saved;
+        self.push_step("MR h".into())
+    }
+    fn expr(&mut self, e: &E) -> (usize, Shape) {
+        match e {
+            E::Var(n) => self.lookup(n),
+            E::Lit(s) => (self.push_step(format!("D {}", enc_str(s))), Shape::Str(Some(s.chars().count()))),
+            E::Bin(op, a, b) => {
+                let (ra, _) = self.expr(a);
+                let (rb, _) = self.expr(b);
+                let m = if *op == "+" { "add" } else { "concat" };
+                (self.push_step(format!("A {m} h {ra},{rb} -")), Shape::Str(None))
+            }
+            E::Mul(a, n) => {
+                let (ra, _) = self.expr(a);
+                (self.push_step(format!("A repeat h {ra} {n}")), Shape::Str(None))
+            }
+            E::Filt(model, _, args, ps) => {
+                let mut rs = vec![];
+                let mut sh0 = Shape::Other;
+                for (i, a) in args.iter().enumerate() {
+                    let (r, sh) = self.expr(a);
+                    if i == 0 {
+                        sh0 = sh;
+                    }
+                    rs.push(r);
+                }
+                let r = self.push_step(format!(
+                    "A {} h {} {}",
+                    model,
+                    Self::regs(&rs),
+                    if ps.is_empty() { "-".into() } else { ps.iter().map(|p| p.to_string()).collect::<Vec<_>>().join(",") }
+                ));
+                let sh = match model.as_str() {
+                    "split" | "lines" => Shape::List(None),
+                    "list" | "chars" => match sh0 {
+                        Shape::Str(n) | Shape::List(n) => Shape::List(n),
+                        _ => Shape::List(None),
+                    },
+                    "reverse" => sh0,
+                    m if m.starts_with("map.") => match sh0 {
+                        Shape::List(n) | Shape::Str(n) => Shape::List(n),
+                        _ => Shape::List(None),
+                    },
+                    _ => Shape::Str(None),
+                };
+                (r, sh)
+            }
+            E::Index(a, k) => {
+                let (ra, _) = self.expr(a);
+                (self.push_step(format!("A elem h {ra} {k}")), Shape::Str(None))
+            }
+            E::Slice(a, x, y) => {
+                let (ra, sh) = self.expr(a);
+                let r = self.push_step(format!("A slice h {ra} {x},{y}"));
+                let len = |n: Option<usize>| n.map(|n| y.min(&n).saturating_sub(*x.min(&n)));
+                (r, match sh {
+                    Shape::Str(n) => Shape::Str(len(n)),
+                    Shape::List(n) => Shape::List(len(n)),
+                    o => o,
+                })
+            }
+            E::List(xs) => {
+                let rs: Vec<usize> = xs.iter().map(|x| self.expr(x).0).collect();
+                (self.push_step(format!("L {}", Self::regs(&rs))), Shape::List(Some(xs.len())))
+            }
+            E::Call(m, args) => (self.call_macro(m, args, None), Shape::Str(None)),
+            E::Caller => {
+                let (body, scopes) = self.callers.last().cloned().flatten().expect("generator bug: caller");
+                self.steps.push("BC".into());
+                let saved = std::mem::replace(&mut self.scopes, scopes);
+                self.scopes.push(HashMap::new());
+                self.callers.push(None);
+                let saved_loops = std::mem::take(&mut self.loops);
+                self.block(&body);
+                self.loops = saved_loops;
+                self.callers.pop();
+                self.scopes = saved;
+                (self.push_step("MR h".into()), Shape::Str(None))
+            }
+            E::Super => {
+                let (name, level) = self.supers.last().cloned().expect("generator bug: super");
+                let body = self.chains[&name][level + 1].clone();
+                self.steps.push("BC".into());
+                self.supers.push((name, level + 1));
+                self.scopes.push(HashMap::new());
+                self.block(&body);
+                self.scopes.pop();
+                self.supers.pop();
+                (self.push_step("EC h".into()), Shape::Str(None))
+            }
+            E::LoopIndex => {
+                let k = *self.loops.last().expect("generator bug: loop.index");
+                (self.push_step(format!("I {}", k + 1)), Shape::Other)
+            }
+            E::Cond(f, a, b) => {
+                if self.flag(f) { self.expr(a) } else { self.expr(b) }
+            }
+        }
+    }
+    fn block(&mut self, ss: &[S]) {
+        for s in ss {
+            self.stmt(s);
+        }
+    }
+    fn scoped(&mut self, ss: &[S]) {
+        self.scopes.push(HashMap::new());
+        self.block(ss);
+        self.scopes.pop();
+    }
+    fn tree(&mut self, nodes: &[Tree]) {
+        for n in nodes {
+            let r = self.push_step(format!("D {}", enc_str(&n.name)));
+            self.steps.push(format!("E h {r}"));
+            if !n.children.is_empty() {
+                self.steps.push(format!("R {}", enc_str("[")));
+                self.steps.push("BC".into());
+                self.tree(&n.children);
+                let c = self.push_step("EC h".into());
+                self.steps.push(format!("E h {c}"));
+                self.steps.push(format!("R {}", enc_str("]")));
+            }
+        }
+    }
+    fn stmt(&mut self, s: &S) {
+        match s {
+            S::Text(t) => {
+                if !t.is_empty() {
+                    self.steps.push(format!("R {}", enc_str(t)));
+                }
+            }
+            S::Emit(e) => {
+                let (r, _) = self.expr(e);
+                self.steps.push(format!("E h {r}"));
+            }
+            S::Set(n, e) => {
+                let (r, sh) = self.expr(e);
+                self.bind(n, r, sh);
+            }
+            S::SetBlock(n, b, f) => {
+                self.steps.push("BC".into());
+                self.scoped(b);
+                let mut r = self.push_step("EC h".into());
+                if let Some((model, _, ps)) = f {
+                    r = self.push_step(format!("A {} h {} {}", model, r, if ps.is_empty() { "-".into() } else { ps.iter().map(|p| p.to_string()).collect::<Vec<_>>().join(",") }));
+                }
+                self.bind(n, r, Shape::Str(None));
+            }
+            S::FilterBlock(model, _, ps, b) => {
+                self.steps.push("BC".into());
+                self.scoped(b);
+                let r = self.push_step("EC h".into());
+                let r2 = self.push_step(format!("A {} h {} {}", model, r, if ps.is_empty() { "-".into() } else { ps.iter().map(|p| p.to_string()).collect::<Vec<_>>().join(",") }));
+                self.steps.push(format!("E h {r2}"));
+            }
+            S::For(v, it, b, el) => {
+                let (mut r, sh) = self.expr(it);
+                let n = match sh {
+                    Shape::List(Some(n)) => n,
+                    Shape::Str(Some(n)) => {
+                        r = self.push_step(format!("A chars h {r} -"));
+                        n
+                    }
+                    _ => panic!("generator bug: loop over unknown length {:?}", it),
+                };
+                if n == 0 {
+                    self.scoped(el);
+                }
+                for k in 0..n {
+                    let rk = self.push_step(format!("A elem h {r} {k}"));
+                    self.scopes.push(HashMap::new());
+                    self.bind(v, rk, Shape::Str(None));
+                    self.loops.push(k);
+                    self.block(b);
+                    self.loops.pop();
+                    self.scopes.pop();
+                }
+            }
+            S::If(f, a, b) => {
+                if self.flag(f) { self.block(a) } else { self.block(b) }
+            }
+            S::IfFirst(a, b) => {
+                if *self.loops.last().expect("generator bug: loop.first") == 0 { self.block(a) } else { self.block(b) }
+            }
+            S::With(n, e, b) => {
+                let (r, sh) = self.expr(e);
+                self.scopes.push(HashMap::new());
+                self.bind(n, r, sh);
+                self.block(b);
+                self.scopes.pop();
+            }
+            S::CallBlock(m, args, b) => {
+                let snapshot = self.scopes.clone();
+                let r = self.call_macro(m, args, Some((b.clone(), snapshot)));
+                self.steps.push(format!("E h {r}"));
+            }
+            S::Include(name) => {
+                let t = self.prog.templates.iter().find(|t| &t.name == name).unwrap().clone();
+                for m in &t.macros {
+                    self.macros.insert(m.name.clone(), m.clone());
+                }
+                let saved_loops = std::mem::take(&mut self.loops);
+                self.scoped(&t.body);
+                self.loops = saved_loops;
+            }
+            S::Block(name, default) => {
+                let body = match self.chains.get(name) {
+                    Some(c) => c[0].clone(),
+                    None => default.clone(),
+                };
+                self.supers.push((name.clone(), 0));
+                let saved_loops = std::mem::take(&mut self.loops);
+                self.scoped(&body);
+                self.loops = saved_loops;
+                self.supers.pop();
+            }
+            S::Auto(_, b) => self.block(b),
+            S::Tree(_) => {
+                let t = self.prog.tree.clone();
+                self.tree(&t);
+            }
+        }
+    }
+}
+
+fn flatten(prog: &Program) -> String {
+    let mut it = Interp {
+        prog, steps: vec![], nreg: 0, scopes: vec![HashMap::new()], macros: HashMap::new(),
+        callers: vec![None], loops: vec![], chains: HashMap::new(), supers: vec![],
+    };
+    for (n, s) in &prog.strs {
+        let r = it.push_step(format!("D {}", enc_str(s)));
+        it.bind(n, r, Shape::Str(Some(s.chars().count())));
+    }
+    for (n, xs) in &prog.lists {
+        let rs: Vec<usize> = xs.iter().map(|s| it.push_step(format!("D {}", enc_str(s)))).collect();
+        let r = it.push_step(format!("L {}", Interp::regs(&rs)));
+        it.bind(n, r, Shape::List(Some(xs.len())));
+    }
+    // all macros are globally named
+    for t in &prog.templates {
+        for m in &t.macros {
+            it.macros.insert(m.name.clone(), m.clone());
+        }
+    }
+    // inheritance chain of the main template
+    let mut chain = vec![];
+    let mut cur = prog.templates.iter().find(|t| t.name == prog.main).unwrap();
+    loop {
+        chain.push(cur);
+        match &cur.extends {
+            Some(p) => cur = prog.templates.iter().find(|t| &t.name == p).unwrap(),
+            None => break,
+        }
+    }
+    fn collect(ss: &[S], out: &mut Vec<(String, Vec<S>)>) {
+        for s in ss {
+            if let S::Block(n, b) = s {
+                out.push((n.clone(), b.clone()));
+            }
+        }
+    }
+    for t in &chain {
+        let mut bs = vec![];
+        collect(&t.body, &mut bs);
+        for (n, b) in bs {
+            it.chains.entry(n).or_default().push(b);
+        }
+    }
+    let base = chain.last().unwrap();
+    it.scopes.push(HashMap::new());
+    it.block(&base.body);
+    it.steps.join("|")
+}
+
+// ---- generator
+#[derive(Clone)]
+struct Scope {
+    strs: Vec<String>,
+    lists: Vec<String>,
+    flags: Vec<String>,
+    in_loop: bool,
+    caller: bool,
+    sup: bool,
+    macros: Vec<(String, usize, bool)>,
+    includes: Vec<String>,
+    allow_include: bool,
+}
+
+struct Gen {
+    rng: Rng,
+    nvar: usize,
+    feats: Vec<&'static str>,
+}
+
+const DATA_ALPHA: [&str; 12] = ["<", ">", "\"", "'", "&", "α", "β", "γ", " ", "\n", "/", "Δ"];
+const TEXT_ALPHA: [&str; 14] = ["a", "b", "xy", " ", ":", "-", "(", ")", ".", "=", "7", "Z", ", ", "!"];
+
+impl Gen {
+    fn fresh(&mut self, p: &str) -> String {
+        self.nvar += 1;
+        format!("{p}{}", self.nvar)
+    }
+    fn data(&mut self, max: u64) -> String {
+        let n = 1 + self.rng.below(max);
+        (0..n).map(|_| *self.rng.pick(&DATA_ALPHA)).collect()
+    }
+    fn text(&mut self) -> String {
+        let n = 1 + self.rng.below(4);
+        (0..n).map(|_| *self.rng.pick(&TEXT_ALPHA)).collect()
+    }
+    fn feat(&mut self, f: &'static str) {
+        if !self.feats.contains(&f) {
+            self.feats.push(f);
+        }
+    }
+    fn str_expr(&mut self, depth: usize, sc: &Scope) -> E {
+        if depth == 0 || self.rng.chance(1, 4) {
+            return if !sc.strs.is_empty() && self.rng.chance(3, 4) { E::Var(self.rng.pick(&sc.strs).clone()) } else { E::Lit(self.data(5)) };
+        }
+        let d = depth - 1;
+        match self.rng.below(24) {
+            0 => { self.feat("~"); E::Bin("~", Box::new(self.str_expr(d, sc)), Box::new(self.str_expr(d, sc))) }
+            1 => { self.feat("+"); E::Bin("+", Box::new(self.sure_str(d, sc)), Box::new(self.sure_str(d, sc))) }
+            2 => { self.feat("*"); let n = self.rng.below(3) as u32; E::Mul(Box::new(self.sure_str(d, sc)), n) }
+            3 => {
+                let (m, syn, ps): (&str, &str, Vec<u64>) = match self.rng.below(10) {
+                    0 => ("escape", "e", vec![]),
+                    1 => ("upper", "upper", vec![]),
+                    2 => ("lower", "lower", vec![]),
+                    3 => ("capitalize", "capitalize", vec![]),
+                    4 => ("title", "title", vec![]),
+                    5 => ("trim", "trim", vec![]),
+                    6 => ("reverse", "reverse", vec![]),
+                    7 => ("indent", "indent(2)", vec![2, 0, 0]),
+                    8 => ("string", "string", vec![]),
+                    _ => ("indent", "indent(1, true)", vec![1, 1, 0]),
+                };
+                self.feat("filter1");
+                E::Filt(m.into(), syn.into(), vec![self.str_expr(d, sc)], ps)
+            }
+            4 | 5 => { self.feat("replace"); E::Filt("replace".into(), "replace({1}, {2})".into(), vec![self.str_expr(d, sc), self.pattern(sc), self.str_expr(d, sc)], vec![]) }
+            6 | 7 => {
+                self.feat("join");
+                if self.rng.chance(1, 4) {
+                    E::Filt("join".into(), "join".into(), vec![self.list_expr(d, sc)], vec![])
+                } else {
+                    E::Filt("join".into(), "join({1})".into(), vec![self.list_expr(d, sc), self.str_expr(d, sc)], vec![])
+                }
+            }
+            8 => { self.feat("first/last"); let m = if self.rng.chance(1, 2) { "first" } else { "last" }; let a = if self.rng.chance(1, 2) { self.list_expr(d, sc) } else { self.sure_str(d, sc) }; E::Filt(m.into(), m.into(), vec![a], vec![]) }
+            9 => { self.feat("default"); E::Filt("default".into(), "default({1})".into(), vec![self.str_expr(d, sc), self.str_expr(d, sc)], vec![0]) }
+            10 => {
+                self.feat("truncate");
+                let len = 4 + self.rng.below(5);
+                let kw = self.rng.below(2);
+                E::Filt("truncate".into(), format!("truncate(length={len}, killwords={}, end={{1}}, leeway=0)", if kw == 1 { "true" } else { "false" }),
+                    vec![self.str_expr(d, sc), self.short_str(sc)], vec![len, 0, kw])
+            }
+            11 => {
+                self.feat("index");
+                if self.rng.chance(1, 2) {
+                    let s = self.data(4);
+                    let k = self.rng.below(s.chars().count() as u64) as usize;
+                    E::Index(Box::new(E::Lit(s)), k)
+                } else {
+                    let n = 1 + self.rng.below(3);
+                    let k = self.rng.below(n) as usize;
+                    let xs = (0..n).map(|_| self.str_expr(d, sc)).collect();
+                    E::Index(Box::new(E::List(xs)), k)
+                }
+            }
+            12 => { self.feat("slice"); let x = self.rng.below(2) as usize; let y = x + self.rng.below(4) as usize; E::Slice(Box::new(self.sure_str(d, sc)), x, y) }
+            13 | 14 | 15 => {
+                let ms: Vec<_> = sc.macros.iter().filter(|m| !m.2).cloned().collect();
+                if ms.is_empty() { return self.str_expr(d, sc); }
+                self.feat("macro-call");
+                let (name, np, _) = self.rng.pick(&ms).clone();
+                E::Call(name, (0..np).map(|_| self.str_expr(d, sc)).collect())
+            }
+            16 => if sc.caller { self.feat("caller()"); E::Caller } else { self.str_expr(d, sc) },
+            17 => if sc.sup { self.feat("super()"); E::Super } else { self.str_expr(d, sc) },
+            18 => if sc.in_loop { self.feat("loop.index"); E::Bin("~", Box::new(E::LoopIndex), Box::new(self.str_expr(d, sc))) } else { self.str_expr(d, sc) },
+            19 => if !sc.flags.is_empty() { self.feat("cond-expr"); E::Cond(self.rng.pick(&sc.flags).clone(), Box::new(self.str_expr(d, sc)), Box::new(self.str_expr(d, sc))) } else { self.str_expr(d, sc) },
+            20 | 21 => {
+                self.feat("format");
+                let (fmt, n): (&str, usize) = *self.rng.pick(&[("%s", 1), ("%s-%s", 2), ("[%5s]", 1), ("%-4s|%s", 2), ("%.2s", 1), ("%s%%", 1)]);
+                let mut args = vec![E::Lit(fmt.to_string())];
+                for _ in 0..n { args.push(self.str_expr(d, sc)); }
+                let syn = format!("format({})", (1..=n).map(|i| format!("{{{i}}}")).collect::<Vec<_>>().join(", "));
+                E::Filt("format".into(), syn, args, vec![])
+            }
+            _ => E::Filt("escape".into(), "escape".into(), vec![self.str_expr(d, sc)], vec![]),
+        }
+    }
+    /// an expression that certainly evaluates to a string (never undefined / a sequence)
+    fn sure_str(&mut self, depth: usize, sc: &Scope) -> E {
+        let ctx: Vec<String> = sc.strs.iter().filter(|s| s.starts_with('d') || s.starts_with('c') || s.starts_with('k')).cloned().collect();
+        match self.rng.below(5) {
+            0 | 1 if !ctx.is_empty() => E::Var(self.rng.pick(&ctx).clone()),
+            2 if depth > 0 => E::Bin("~", Box::new(self.str_expr(depth - 1, sc)), Box::new(self.str_expr(depth - 1, sc))),
+            3 if depth > 0 => { let (m, s, p) = self.block_filter(); E::Filt(m, s, vec![self.sure_str(depth - 1, sc)], p) }
+            _ => E::Lit(self.data(4)),
+        }
+    }
+    fn pattern(&mut self, sc: &Scope) -> E {
+        match self.rng.below(4) {
+            0 => E::Lit(self.rng.pick(&["α", "<", "&", "'", "&lt;", "β", " ", "amp;"]).to_string()),
+            1 if !sc.strs.is_empty() => E::Var(self.rng.pick(&sc.strs).clone()),
+            _ => E::Lit(self.data(2)),
+        }
+    }
+    fn short_str(&mut self, sc: &Scope) -> E {
+        if !sc.strs.is_empty() && self.rng.chance(1, 3) {
+            // a variable may be longer than the length; that is an engine error the model reports too
+            E::Slice(Box::new(self.sure_str(0, sc)), 0, 2)
+        } else {
+            E::Lit(self.data(2))
+        }
+    }
+    /// list expression of known length (usable as loop iterable)
+    fn iter_expr(&mut self, depth: usize, sc: &Scope) -> E {
+        match self.rng.below(8) {
+            0 | 1 if !sc.lists.is_empty() => E::Var(self.rng.pick(&sc.lists).clone()),
+            2 => { let n = self.rng.below(4); E::List((0..n).map(|_| self.str_expr(depth.saturating_sub(1), sc)).collect()) }
+            3 if !sc.lists.is_empty() => E::Filt("reverse".into(), "reverse".into(), vec![E::Var(self.rng.pick(&sc.lists).clone())], vec![]),
+            4 if !sc.lists.is_empty() => { self.feat("map"); E::Filt("map.upper".into(), "map(\"upper\")".into(), vec![E::Var(self.rng.pick(&sc.lists).clone())], vec![]) }
+            5 if !sc.lists.is_empty() => { let y = 1 + self.rng.below(2) as usize; E::Slice(Box::new(E::Var(self.rng.pick(&sc.lists).clone())), 0, y) }
+            6 => { self.feat("iter-chars"); E::Lit(self.data(3)) }
+            _ if !sc.lists.is_empty() => E::Var(self.rng.pick(&sc.lists).clone()),
+            _ => E::List(vec![E::Lit(self.data(3))]),
+        }
+    }
+    fn list_expr(&mut self, depth: usize, sc: &Scope) -> E {
+        if depth == 0 {
+            return self.iter_expr(0, sc);
+        }
+        let d = depth - 1;
+        match self.rng.below(8) {
+            0 => { self.feat("split"); let sep = E::Lit(self.rng.pick(&["α", " ", "<", "&", "'", "β"]).to_string()); E::Filt("split".into(), "split({1})".into(), vec![self.str_expr(d, sc), sep], vec![]) }
+            1 => { self.feat("split"); E::Filt("split".into(), "split".into(), vec![self.str_expr(d, sc)], vec![]) }
+            2 => { self.feat("lines"); E::Filt("lines".into(), "lines".into(), vec![self.str_expr(d, sc)], vec![]) }
+            3 => { self.feat("list"); E::Filt("list".into(), "list".into(), vec![self.str_expr(d, sc)], vec![]) }
+            4 => { self.feat("map"); E::Filt("map.escape".into(), "map(\"e\")".into(), vec![self.list_expr(d, sc)], vec![]) }
+            5 => { self.feat("map"); E::Filt("map.replace".into(), "map(\"replace\", {1}, {2})".into(), vec![self.list_expr(d, sc), self.pattern(sc), self.str_expr(d, sc)], vec![]) }
+            _ => self.iter_expr(depth, sc),
+        }
+    }
+    fn block_filter(&mut self) -> (String, String, Vec<u64>) {
+        let (m, s, p): (&str, &str, Vec<u64>) = match self.rng.below(9) {
+            0 => ("upper", "upper", vec![]),
+            1 => ("lower", "lower", vec![]),
+            2 => ("trim", "trim", vec![]),
+            3 => ("title", "title", vec![]),
+            4 => ("capitalize", "capitalize", vec![]),
+            5 => ("indent", "indent(2)", vec![2, 0, 0]),
+            6 => ("escape", "e", vec![]),
+            7 => ("string", "string", vec![]),
+            _ => ("reverse", "reverse", vec![]),
+        };
+        (m.into(), s.into(), p)
+    }
+    fn block(&mut self, n: usize, depth: usize, sc: &mut Scope) -> Vec<S> {
+        let mut out = vec![];
+        for _ in 0..n {
+            let s = self.stmt(depth, sc);
+            out.extend(s);
+        }
+        out
+    }
+    fn stmt(&mut self, depth: usize, sc: &mut Scope) -> Vec<S> {
+        let pick = if depth == 0 { self.rng.below(8) } else { self.rng.below(32) };
+        let d = depth.saturating_sub(1);
+        match pick {
+            0 | 1 => vec![S::Text(self.text())],
+            2..=6 => vec![S::Emit(self.str_expr(3, sc))],
+            7 => { let v = self.fresh("v"); let e = self.str_expr(3, sc); sc.strs.push(v.clone()); vec![S::Set(v, e)] }
+            8 | 9 | 10 => {
+                self.feat("set-block");
+                let v = self.fresh("c");
+                let mut inner = sc.clone();
+                let n = 1 + self.rng.below(3) as usize;
+                let b = self.block(n, d, &mut inner);
+                let f = if self.rng.chance(1, 3) { self.feat("set-block-filter"); Some(self.block_filter()) } else { None };
+                sc.strs.push(v.clone());
+                vec![S::SetBlock(v, b, f)]
+            }
+            11 | 12 => {
+                self.feat("filter-block");
+                let (m, s, p) = self.block_filter();
+                let mut inner = sc.clone();
+                let n = 1 + self.rng.below(3) as usize;
+                vec![S::FilterBlock(m, s, p, self.block(n, d, &mut inner))]
+            }
+            13 | 14 | 15 => {
+                self.feat("for");
+                let v = self.fresh("x");
+                let it = self.iter_expr(2, sc);
+                let mut inner = sc.clone();
+                inner.strs.push(v.clone());
+                inner.in_loop = true;
+                let n = 1 + self.rng.below(3) as usize;
+                let b = self.block(n, d, &mut inner);
+                let mut e2 = sc.clone();
+                let el = if self.rng.chance(1, 4) { self.feat("for-else"); self.block(1, 0, &mut e2) } else { vec![] };
+                vec![S::For(v, it, b, el)]
+            }
+            16 => {
+                if sc.flags.is_empty() { return vec![S::Text(self.text())]; }
+                self.feat("if");
+                let f = self.rng.pick(&sc.flags).clone();
+                let (mut a, mut b) = (sc.clone(), sc.clone());
+                vec![S::If(f, self.block(1, d, &mut a), self.block(1, d, &mut b))]
+            }
+            17 => {
+                if !sc.in_loop { return vec![S::Emit(self.str_expr(3, sc))]; }
+                self.feat("loop.first");
+                let (mut a, mut b) = (sc.clone(), sc.clone());
+                vec![S::IfFirst(self.block(1, d, &mut a), self.block(1, d, &mut b))]
+            }
+            18 => {
+                self.feat("with");
+                let v = self.fresh("w");
+                let e = self.str_expr(3, sc);
+                let mut inner = sc.clone();
+                inner.strs.push(v.clone());
+                let n = 1 + self.rng.below(2) as usize;
+                vec![S::With(v, e, self.block(n, d, &mut inner))]
+            }
+            19 | 20 | 21 => {
+                let ms: Vec<_> = sc.macros.iter().filter(|m| m.2).cloned().collect();
+                if ms.is_empty() { return vec![S::Emit(self.str_expr(3, sc))]; }
+                self.feat("call-block");
+                let (name, np, _) = self.rng.pick(&ms).clone();
+                let args = (0..np).map(|_| self.str_expr(2, sc)).collect();
+                let mut inner = sc.clone();
+                inner.caller = false;
+                inner.in_loop = false;
+                inner.sup = false;
+                let n = 1 + self.rng.below(2) as usize;
+                vec![S::CallBlock(name, args, self.block(n, d, &mut inner))]
+            }
+            22 | 23 => {
+                if !sc.allow_include || sc.includes.is_empty() { return vec![S::Emit(self.str_expr(3, sc))]; }
+                self.feat("include");
+                vec![S::Include(self.rng.pick(&sc.includes).clone())]
+            }
+            24 => {
+                self.feat("autoescape-true");
+                let a = if self.rng.chance(1, 2) { "true" } else { "\"html\"" };
+                let mut inner = sc.clone();
+                let n = 1 + self.rng.below(2) as usize;
+                vec![S::Auto(a, self.block(n, d, &mut inner))]
+            }
+            25 => { self.feat("recursive-loop"); vec![S::Tree("tree".into())] }
+            26 | 27 => {
+                // safe format string from a capture
+                self.feat("format-safe");
+                let v = self.fresh("g");
+                let (fmt, n): (&str, usize) = *self.rng.pick(&[("%s", 1), ("%s and %s", 2), ("(%5s)", 1), ("%-4s=%s", 2), ("%.3s", 1)]);
+                let mut args = vec![E::Var(v.clone())];
+                for _ in 0..n { args.push(self.str_expr(2, sc)); }
+                let syn = format!("format({})", (1..=n).map(|i| format!("{{{i}}}")).collect::<Vec<_>>().join(", "));
+                let r = vec![S::SetBlock(v.clone(), vec![S::Text(fmt.to_string())], None), S::Emit(E::Filt("format".into(), syn, args, vec![]))];
+                sc.strs.push(v);
+                r
+            }
+            28 => {
+                // capture, then print through operations that drop the mark
+                self.feat("capture-concat");
+                let v = self.fresh("k");
+                let mut inner = sc.clone();
+                let b = self.block(2, 0, &mut inner);
+                sc.strs.push(v.clone());
+                vec![S::SetBlock(v.clone(), b, None), S::Emit(E::Var(v.clone())), S::Emit(E::Bin("~", Box::new(E::Var(v)), Box::new(self.str_expr(1, sc))))]
+            }
+            _ => vec![S::Emit(self.str_expr(4, sc))],
+        }
+    }
+    fn macro_def(&mut self, sc: &Scope, uses_caller: bool) -> MacroDef {
+        let name = self.fresh(if uses_caller { "mc" } else { "m" });
+        let np = self.rng.below(3) as usize;
+        let params: Vec<String> = (0..np).map(|_| self.fresh("p")).collect();
+        let mut inner = sc.clone();
+        inner.strs = sc.strs.iter().filter(|s| s.starts_with('d')).cloned().collect();
+        inner.strs.extend(params.iter().cloned());
+        inner.in_loop = false;
+        inner.sup = false;
+        inner.caller = uses_caller;
+        inner.allow_include = false;
+        let n = 1 + self.rng.below(3) as usize;
+        let mut body = self.block(n, 1, &mut inner);
+        if uses_caller {
+            body.push(S::Emit(E::Caller));
+            if self.rng.chance(1, 2) {
+                body.push(S::Text(self.text()));
+            }
+        }
+        MacroDef { name, params, body, uses_caller }
+    }
+}
+
+fn gen_program(seed: u64, idx: u64) -> (Program, Vec<&'static str>, Vec<S>, bool) {
+    let _ = idx;
+    let mut g = Gen { rng: Rng(seed), nvar: 0, feats: vec![] };
+    let strs: Vec<(String, String)> = (0..3).map(|i| (format!("d{i}"), g.data(6))).collect();
+    let lists: Vec<(String, Vec<String>)> = vec![
+        ("xs".to_string(), { let n = 1 + g.rng.below(3); (0..n).map(|_| g.data(4)).collect() }),
+        ("ys".to_string(), { let n = g.rng.below(3); (0..n).map(|_| g.data(3)).collect() }),
+    ];
+    let flags = vec![("f0".to_string(), g.rng.chance(1, 2)), ("f1".to_string(), g.rng.chance(1, 2))];
+    let tree = vec![
+        Tree { name: g.data(3), children: vec![Tree { name: g.data(3), children: vec![] }, Tree { name: g.data(2), children: vec![Tree { name: g.data(2), children: vec![] }] }] },
+        Tree { name: g.data(3), children: vec![] },
+    ];
+    let base_scope = Scope {
+        strs: strs.iter().map(|s| s.0.clone()).collect(), lists: lists.iter().map(|s| s.0.clone()).collect(),
+        flags: flags.iter().map(|s| s.0.clone()).collect(), in_loop: false, caller: false, sup: false,
+        macros: vec![], includes: vec![], allow_include: false,
+    };
+    let mut templates = vec![];
+    // library of macros
+    let mut lib = Tmpl { name: "lib.html".into(), ..Default::default() };
+    let mut sc = base_scope.clone();
+    let nlib = g.rng.below(3);
+    for i in 0..nlib {
+        let uc = i == 1 || g.rng.chance(1, 4);
+        let m = g.macro_def(&sc, uc);
+        sc.macros.push((m.name.clone(), m.params.len(), m.uses_caller));
+        lib.macros.push(m);
+    }
+    let lib_names: Vec<String> = lib.macros.iter().map(|m| m.name.clone()).collect();
+    let imports = vec![("lib.html".to_string(), lib_names.clone())];
+    templates.push(lib);
+    // included template
+    let inc_name = if g.rng.chance(1, 2) { "inc.html" } else { "parts/inc.xml" };
+    let mut inc = Tmpl { name: inc_name.into(), imports: imports.clone(), ..Default::default() };
+    let mut isc = sc.clone();
+    let n = 1 + g.rng.below(3) as usize;
+    inc.body = g.block(n, 1, &mut isc);
+    templates.push(inc);
+    sc.includes.push(inc_name.to_string());
+    // main
+    let main_name = g.rng.pick(&["main.html", "main.xml", "page.htm", "main.html.j2", "sub/main.xml.jinja"]).to_string();
+    let mut main = Tmpl { name: main_name.clone(), imports: imports.clone(), ..Default::default() };
+    let nm = g.rng.below(3);
+    for _ in 0..nm {
+        let uc = g.rng.chance(1, 3);
+        let m = g.macro_def(&sc, uc);
+        sc.macros.push((m.name.clone(), m.params.len(), m.uses_caller));
+        main.macros.push(m);
+    }
+    let inherit = g.rng.chance(3, 10);
+    let mut wrap_body = vec![];
+    if inherit {
+        g.feat("extends");
+        // base: text + blocks; optional middle; main overrides
+        let mut base = Tmpl { name: "base.html".into(), imports: imports.clone(), ..Default::default() };
+        let mut bsc = base_scope.clone();
+        bsc.macros = sc.macros.iter().filter(|m| lib_names.contains(&m.0)).cloned().collect();
+        bsc.includes = sc.includes.clone();
+        bsc.allow_include = true;
+        let mut body = vec![];
+        for bn in ["b1", "b2"] {
+            let k = g.rng.below(2) as usize;
+            body.extend(g.block(k, 1, &mut bsc.clone()));
+            let k = 1 + g.rng.below(2) as usize;
+            body.push(S::Block(bn.to_string(), g.block(k, 1, &mut bsc.clone())));
+        }
+        body.extend(g.block(1, 1, &mut bsc.clone()));
+        base.body = body;
+        templates.push(base);
+        let mut parent = "base.html".to_string();
+        if g.rng.chance(1, 3) {
+            g.feat("extends-3-levels");
+            let mut mid = Tmpl { name: "mid.xml".into(), extends: Some(parent.clone()), imports: imports.clone(), ..Default::default() };
+            let mut msc = bsc.clone();
+            msc.sup = true;
+            let k = 1 + g.rng.below(2) as usize;
+            mid.body = vec![S::Block("b1".into(), g.block(k, 1, &mut msc))];
+            templates.push(mid);
+            parent = "mid.xml".into();
+        }
+        main.extends = Some(parent);
+        let mut csc = sc.clone();
+        csc.sup = true;
+        csc.allow_include = true;
+        let mut body = vec![];
+        for bn in ["b1", "b2"] {
+            if g.rng.chance(2, 3) {
+                let k = 1 + g.rng.below(3) as usize;
+                body.push(S::Block(bn.to_string(), g.block(k, 2, &mut csc.clone())));
+            }
+        }
+        main.body = body;
+    } else {
+        let mut msc = sc.clone();
+        msc.allow_include = true;
+        let n = 2 + g.rng.below(5) as usize;
+        main.body = g.block(n, 2, &mut msc);
+        wrap_body = main.body.clone();
+    }
+    templates.push(main);
+    let feats = g.feats.clone();
+    (Program { templates, main: main_name, strs, lists, flags, tree }, feats, wrap_body, inherit)
+}
+
+fn tree_enc(ts: &[Tree]) -> String {
+    format!(
+        "L({})",
+        ts.iter()
+            .map(|t| format!("M({}=S0:{};{}={})", enc_str("name"), enc_str(&t.name), enc_str("children"), tree_enc(&t.children)))
+            .collect::<Vec<_>>()
+            .join(";")
+    )
+}
+
+fn prog_ctx(p: &Program) -> serde_json::Map<String, serde_json::Value> {
+    let mut ctx = serde_json::Map::new();
+    for (n, s) in &p.strs {
+        ctx.insert(n.clone(), json!(format!("S0:{}", enc_str(s))));
+    }
+    for (n, xs) in &p.lists {
+        ctx.insert(n.clone(), json!(format!("L({})", xs.iter().map(|s| format!("S0:{}", enc_str(s))).collect::<Vec<_>>().join(";"))));
+    }
+    for (n, b) in &p.flags {
+        ctx.insert(n.clone(), json!(format!("B:{}", *b as u8)));
+    }
+    ctx.insert("tree".into(), json!(tree_enc(&p.tree)));
+    ctx
+}
+
+fn gen_programs(out: &mut impl Write, tier: &str) {
+    let seed = seed_from_env();
+    let n = if tier == "thorough" { 50_000 } else { 2_000 };
+    let mut master = Rng::new(seed);
+    for idx in 0..n {
+        let (p, feats, wrap_body, inherit) = gen_program(master.next(), idx);
+        let model = flatten(&p);
+        let mut t = serde_json::Map::new();
+        for tm in &p.templates {
+            t.insert(tm.name.clone(), json!(tmpl_src(tm)));
+        }
+        let ctx = prog_ctx(&p);
+        let case = json!({"s": "P", "idx": idx, "seed": seed, "main": p.main, "t": t, "ctx": ctx, "feats": feats, "model": model});
+        let res = run_case(&case);
+        writeln!(out, "{}\t{}", case, res).unwrap();
+        // wrappers: the same body inside a capturing construct renders identically
+        if !inherit && idx % 2 == 0 && res.starts_with("OK") {
+            let main = p.templates.iter().find(|x| x.name == p.main).unwrap();
+            let header = header_src(main);
+            let b = stmts_src(&wrap_body);
+            let variants: Vec<(&str, Vec<(String, String)>)> = vec![
+                ("set-block", vec![(p.main.clone(), format!("{header}{{% set w %}}{b}{{% endset %}}{{{{ w }}}}"))]),
+                ("set-block-twice", vec![(p.main.clone(), format!("{header}{{% set w %}}{b}{{% endset %}}{{% set w2 %}}{{{{ w }}}}{{% endset %}}{{{{ w2 }}}}"))]),
+                ("macro", vec![(p.main.clone(), format!("{header}{{% macro wm() %}}{b}{{% endmacro %}}{{{{ wm() }}}}"))]),
+                ("call-block", vec![(p.main.clone(), format!("{header}{{% macro wc() %}}{{{{ caller() }}}}{{% endmacro %}}{{% call wc() %}}{b}{{% endcall %}}"))]),
+                ("filter-block", vec![(p.main.clone(), format!("{header}{{% filter string %}}{b}{{% endfilter %}}"))]),
+                ("include", vec![(p.main.clone(), "{% include \"winc.html\" %}".to_string()), ("winc.html".to_string(), format!("{header}{b}"))]),
+                ("block", vec![(p.main.clone(), format!("{{% extends \"wbase.html\" %}}{header}{{% block c %}}{b}{{% endblock %}}")), ("wbase.html".to_string(), "{% block c %}{% endblock %}".to_string())]),
+                ("block-super", vec![
+                    (p.main.clone(), format!("{{% extends \"wbase.html\" %}}{{% block c %}}{{{{ super() }}}}{{% endblock %}}")),
+                    ("wbase.html".to_string(), format!("{header}{{% block c %}}{b}{{% endblock %}}")),
+                ]),
+            ];
+            let which = (idx / 2) as usize % variants.len();
+            let (kind, ts) = &variants[which];
+            let mut t2 = t.clone();
+            for (k, v) in ts {
+                t2.insert(k.clone(), json!(v));
+            }
+            let wcase = json!({"s": "W", "idx": idx, "seed": seed, "kind": kind, "main": p.main, "t": t2, "ctx": case["ctx"], "plain": res});
+            let wres = run_case(&wcase);
+            writeln!(out, "{}\t{}", wcase, wres).unwrap();
+        }
+    }
+}
+
+fn main() {
+    quiet_panics();
+    let args: Vec<String> = std::env::args().collect();
+    let stdout = std::io::stdout();
+    let mut out = std::io::BufWriter::new(stdout.lock());
+    match args.get(1).map(|s| s.as_str()) {
+        Some("gen") => {
+            let tier = args.get(2).map(|s| s.as_str()).unwrap_or("quick");
+            gen_fc(&mut out, tier);
+            gen_modes(&mut out);
+            gen_names(&mut out);
+            gen_programs(&mut out, tier);
+            gen_x(&mut out);
+        }
+        Some("one") => {
+            let case: serde_json::Value = serde_json::from_str(&args[2]).expect("case json");
+            if let Some(t) = case["t"].as_object() {
+                for (k, v) in t {
+                    writeln!(out, "--- {k}\n{}", v.as_str().unwrap()).unwrap();
+                }
+            }
+            writeln!(out, "--- ctx {}", case["ctx"]).unwrap();
+            let res = run_case(&case);
+            writeln!(out, "--- engine\n{res}").unwrap();
+            let f: Vec<&str> = res.split('\t').collect();
+            if f.len() == 3 && f[2] != "-" {
+                writeln!(out, "--- output text\n{}", dec_str(f[2])).unwrap();
+            }
+            if let Some(m) = case["model"].as_str() {
+                writeln!(out, "--- model program\n{m}").unwrap();
+            }
+        }
+        _ => {
+            eprintln!("usage: c02 gen <quick|thorough> | one <case json>");
+            std::process::exit(2);
+        }
+    }
 }
